@@ -67,9 +67,9 @@ def bus(o0: int, o1: int, o2: int, o3: int, o4: int, o5: int) -> bool:
             return skip()
     cops = []
     for o in ops:
-        if o > 3 * N:
+        if o > 3 * N + 1:
             return skip()
-        for k in range(3 * N + 1):      # case split: make the opcode concrete on this path
+        for k in range(3 * N + 2):      # case split: make the opcode concrete on this path
             if o == k:
                 cops.append(k)
                 break
@@ -83,9 +83,22 @@ def bus(o0: int, o1: int, o2: int, o3: int, o4: int, o5: int) -> bool:
     seq = 0
     for o in ops:
         enq = True
-        if o < N:
-            if cur[o] is not None:
+        if o == 3 * N + 1:
+            # subscriber 0 subscribes with a channel that is broken already when the acknowledgement is sent
+            if cur[0] is not None:
+                return skip()
+            c = FC(0)
+            c.broken = True
+            c.expect = []
+            c.must_close = True
+            chans.append(c)
+            eq.subscribe('s0', c)
+        elif o < N:
+            if cur[o] is not None and not cur[o].broken:
                 return skip()       # re-subscribing a live id is outside the property (ids are unique)
+            if cur[o] is not None:
+                # the subscriber's channel broke (not noticed by the dispatcher yet) and it comes back under its id with a fresh channel
+                cur[o].replaced = True
             c = FC(o)
             c.expect = ['SUB']
             chans.append(c)
@@ -102,6 +115,8 @@ def bus(o0: int, o1: int, o2: int, o3: int, o4: int, o5: int) -> bool:
                 cur[i] = None
         elif o < 3 * N:
             i = o - 2 * N
+            if cur[i] is not None and cur[i].broken:
+                return skip()
             c = cur[i]
             if c is not None:
                 c.broken = True
@@ -142,6 +157,8 @@ def bus(o0: int, o1: int, o2: int, o3: int, o4: int, o5: int) -> bool:
                 got.append(m['event_payload']['n'])
         if got != c.expect:
             return fail('subscriber received a different sequence', sid=c.sid, got=repr(got), want=repr(c.expect))
+        if getattr(c, 'replaced', False):
+            continue        # superseded by a fresh channel of the same id: whether the dispatcher closes the old end is not the subject
         if getattr(c, 'must_close', False) and not c.closed:
             return fail('channel of a removed subscriber was not closed', sid=c.sid)
         if not getattr(c, 'must_close', False) and c.closed:
@@ -164,7 +181,7 @@ def obligations(tier):
     else:
         shapes = [(2, 6), (3, 5), (1, 6)]
     for N, L in shapes:
-        for first in range(3 * N + 1):
+        for first in range(3 * N + 2):
             obs.append({'name': 'bus.s%d.len%d.first%d' % (N, L, first), 'fn': 'bus',
                         'cfg': {'subs': N, 'len': L, 'first': first}, 'timeout': 600 if tier == 'quick' else 3000})
     return obs
@@ -173,10 +190,11 @@ def obligations(tier):
 META = {
     'bounds': {
         'quick': 'all histories of length 5 over 2 subscribers and of length 4 over 3 subscribers; operations: subscribe i (fresh channel), '
-                 'unsubscribe i (also unknown / repeated), break channel i, publish; run_once after every operation',
+                 'unsubscribe i (also unknown / repeated), break channel i, publish, subscribe with a channel that is already broken, come back '
+                 'under the same id with a fresh channel after the old one broke; run_once after every operation',
         'thorough': 'length 6 over 2 subscribers, 5 over 3, 6 over 1',
     },
-    'outside': 'real pipes, threads and pickling (EventManager, EventSubscriber.relay); re-subscribing an id that is still subscribed '
+    'outside': 'real pipes, threads and pickling (EventManager, EventSubscriber.relay); re-subscribing an id whose channel is intact '
                '(ids are documented as unique); dispatcher shutdown broadcast',
     'stubs': ['list-backed FIFO queue', 'channel stub whose send() raises BrokenPipeError once broken and OSError once closed',
               'time.time in proxy.core.event.queue replaced by an integer clock'],
